@@ -9,3 +9,7 @@ pub mod gen;
 mod c24;
 #[cfg(kani)]
 mod c01;
+#[cfg(kani)]
+mod c08;
+#[cfg(kani)]
+mod c07;
